@@ -35,7 +35,20 @@ class Model:
     self.spec_rec = data['spec']
     self.lkey = data['listkey']
     self.lo, self.hi = data['lo'], data['hi']
-    if kind == 'obj':
+    self.keeper = None
+    if kind == 'nest':
+      # the nested classes (B, then A which refers to B), registered so that records <-> objects round-trip
+      for cid, crec in data['classes']:
+        if cid not in vs.CLASSES:
+          cfields = [(vs.key_name(k), vs.build(f)) for k, f in crec['fields']]
+
+          @pg.members(cfields)
+          class TNested(pg.Object):
+            allow_symbolic_assignment = True
+          TNested.__name__ = f'N{cid}'
+          vs.CLASSES[cid] = TNested
+          vs.CLASS_IDS[TNested] = cid
+    if kind in ('obj', 'nest'):
       fields = [(vs.key_name(k), vs.build(f)) for k, f in self.spec_rec['fields']]
 
       @pg.members(fields)
@@ -49,9 +62,14 @@ class Model:
       self.value_spec = vs.build(self.spec_rec)
       self.fields = {vs.key_name(k): f for k, f in self.spec_rec['fields']} if kind == 'dict' else {}
 
-  def make(self, root: dict, partial: bool):
+  def make(self, root: dict, partial: bool, ext: Optional[dict] = None):
     """A fresh real container holding the content `root` (a value record)."""
-    if self.kind == 'list':
+    if self.kind == 'nest':
+      # the free-standing object lives in an (untyped) keeper dict: it has a parent, so the holder stores copies
+      self.keeper = pg.Dict(e=vs.mkvalue(ext))
+      init = {vs.key_name(k): vs.mkvalue(v) for k, v in root['xs'] if v['t'] != 'missing'}
+      return self.cls(**init)
+    if self.kind in ('list', 'list2'):
       return pg.List(vs.mkvalue(root), value_spec=vs.build(self.spec_rec), allow_partial=partial)
     init = {vs.key_name(k): vs.mkvalue(v) for k, v in root['xs'] if v['t'] != 'missing'}
     if self.kind == 'dict':
@@ -63,7 +81,7 @@ class Model:
   def content(self, c) -> dict:
     """Projection of the real container into a value record (a constant key that is absent is reported as
     holding the missing-value marker: the two are the same state of a partial value)."""
-    if self.kind == 'list':
+    if self.kind in ('list', 'list2'):
       return vs.encode(c)
     if self.kind == 'dict':
       kvs = dict((vs.key_code(k), vs.encode(v)) for k, v in c.sym_items())
@@ -74,14 +92,17 @@ class Model:
         kvs[k] = vs.V('missing')
     return vs.V('dict', 0, [[k, kvs[k]] for k in sorted(kvs)])
 
+  def ext(self):
+    return self.keeper.sym_getattr('e')
+
   def the_list(self, c):
-    if self.kind == 'list':
+    if self.kind in ('list', 'list2'):
       return c
     name = vs.key_name(self.lkey)
     return c.sym_getattr(name)
 
   def lpath(self, i: int):
-    return i if self.kind == 'list' else f'{vs.key_name(self.lkey)}[{i}]'
+    return i if self.kind in ('list', 'list2') else f'{vs.key_name(self.lkey)}[{i}]'
 
 
 def _scope(sc: str):
@@ -127,9 +148,33 @@ def execute(m: Model, c, act: List[Any]) -> Optional[BaseException]:
         operator.ior(c, upd)
       else:
         c.rebind(upd, raise_on_no_change=False)
+    elif name in ('NSetExtAttr', 'NSetExtRebind'):
+      with _scope(act[1]):
+        if name == 'NSetExtAttr':
+          setattr(c, kn(1), m.ext())
+        else:
+          c.rebind({kn(1): m.ext()}, raise_on_no_change=False)
+    elif name == 'NLeaf':
+      _, tgt, via, sc, v = act
+      x = m.ext() if tgt == 'ext' else c.sym_getattr(kn(1))
+      with _scope(sc):
+        if via == 'direct':
+          x.sym_getattr(kn(1)).rebind({kn(1): val(v)}, raise_on_no_change=False)
+        elif via == 'attr':
+          setattr(x.sym_getattr(kn(1)), kn(1), val(v))
+        elif tgt == 'ext':
+          x.rebind({f'{kn(1)}.{kn(1)}': val(v)}, raise_on_no_change=False)
+        else:
+          c.rebind({f'{kn(1)}.{kn(1)}.{kn(1)}': val(v)}, raise_on_no_change=False)
     else:
       lst = m.the_list(c)
-      if name == 'LSet':
+      def sl(a, b, k):
+        return slice(None if a == vs.NONE else a, None if b == vs.NONE else b, k)
+      if name == 'LDelSliceX':
+        del lst[sl(act[1], act[2], act[3])]
+      elif name == 'LSetSliceX':
+        lst[sl(act[1], act[2], act[3])] = [val(x) for x in act[4]]
+      elif name == 'LSet':
         lst[act[1]] = val(act[2])
       elif name == 'LRebindSet':
         c.rebind({m.lpath(act[1]): val(act[2])}, raise_on_no_change=False)
@@ -206,9 +251,9 @@ def direct_clauses(m: Model, c, partial_ok: bool) -> List[str]:
         bad.append('member')
         break
 
-  if m.kind == 'list':
+  if m.kind in ('list', 'list2'):
     check_list(c, c.value_spec)
-    return bad
+    return bad + stale_facts(c)
   vspec = c.value_spec if m.kind == 'dict' else None
   sch = vspec.schema if vspec is not None else m.cls.__schema__
   keys = list(c.sym_keys())
@@ -237,6 +282,35 @@ def direct_clauses(m: Model, c, partial_ok: bool) -> List[str]:
       check_list(v, field.value)
     elif not _member_ok(field.value, v):
       bad.append('member')
+  if _hand_missing(c) and not partial_ok:
+    bad.append('partial_inside')       # a value with a MISSING member somewhere below, never made partial
+  return bad + stale_facts(c)
+
+
+def _hand_missing(node) -> bool:
+  """Is a MISSING marker stored anywhere in the tree (walked by hand, no derived facts involved)."""
+  if isinstance(node, pg.Symbolic):
+    for _, v in node.sym_items():
+      if pg.MISSING_VALUE == v or _hand_missing(v):
+        return True
+  return False
+
+
+def stale_facts(c) -> List[str]:
+  """is_partial / sym_missing() of every symbolic node below c must agree with the stored content."""
+  bad = []
+
+  def walk(node):
+    if not isinstance(node, pg.Symbolic):
+      return
+    hm = _hand_missing(node)
+    if bool(node.is_partial) != hm:
+      bad.append('is_partial')
+    if bool(node.sym_missing(flatten=True)) != hm:
+      bad.append('sym_missing')
+    for _, v in node.sym_items():
+      walk(v)
+  walk(c)
   return bad
 
 
@@ -275,13 +349,13 @@ def _show(act) -> List[Any]:
 def replay_behaviour(chk, m: Model, partial: bool, steps, hits: Dict[str, int], cfg: str, mirror: bool = False) -> None:
   """Replays one TLC behaviour; reports violations through chk; truncates after a divergence."""
   st0 = steps[0].state
-  c = m.make(st0['root'], partial)
+  c = m.make(st0['root'], partial, _thaw(st0.get('ext')))
   history = []
   got0 = m.content(c)
   init_detail = {'cfg': cfg, 'kind': m.kind, 'partial_ctor': partial, 'step': 0, 'call': ['Init'],
                  'spec_content': repr(vs.mkvalue(st0['root'])), 'after': repr(vs.mkvalue(got0)), 'mirror': mirror,
                  'behaviour': [{'act': ['Init'], 'out': 'ok', 'root': _thaw(st0['root']), 'pok': st0['pok'],
-                                'alts': [_thaw(st0['root'])]}]}
+                                'alts': [_thaw(st0['root'])], 'ext': _thaw(st0.get('ext'))}]}
   init_bad = sorted(set(direct_clauses(m, c, bool(st0['pok']))))
   if init_bad or _norm(got0) != _norm(st0['root']):
     # "after construction": the constructor is a write path as well
@@ -306,11 +380,18 @@ def replay_behaviour(chk, m: Model, partial: bool, steps, hits: Dict[str, int], 
               'impl_outcome': 'ok' if exc is None else f'{type(exc).__name__}: {str(exc)[:160]}',
               'history': history[-8:],
               'behaviour': [{'act': _thaw(s_.state['act']), 'out': s_.state['out'], 'root': _thaw(s_.state['root']),
-                             'pok': s_.state['pok'], 'alts': [_thaw(x) for x in s_.state['alts']]}
+                             'pok': s_.state['pok'], 'alts': [_thaw(x) for x in s_.state['alts']],
+                             'ext': _thaw(s_.state.get('ext'))}
                             for s_ in steps[:n + 1]],
               'mirror': mirror}
     base_sig = {'action': name, 'kind': m.kind, 'arg': arg_class(m, act)}
     clauses = direct_clauses(m, c, bool(st['pok']))
+    if m.kind == 'nest':
+      clauses = clauses + stale_facts(m.ext())
+      ext_now = vs.encode(m.ext())
+      detail['ext'] = repr(ext_now)
+      if not clauses and _norm(ext_now) != _norm(st['ext']):
+        clauses = ['ext_content' if st['out'] == 'ok' else 'rejected_write_stored']
     stop = False
     if clauses:
       # the real container holds a state its schema rejects
